@@ -423,22 +423,30 @@ func (p *Proxy) handleConnectRequest(ctx *Context, req *http.Request, session *S
 		log.Errorf("martian: got error while flushing response back to client: %v", err)
 	}
 
-	cbw := bufio.NewWriter(cconn)
-	cbr := bufio.NewReader(cconn)
-	defer cbw.Flush()
+	// halfClose tells the peer behind c that no more bytes will follow, where the
+	// connection type allows it, so that it observes end-of-stream as soon as the other
+	// side of the tunnel has finished sending rather than when the whole tunnel ends.
+	halfClose := func(c net.Conn) {
+		if cw, ok := c.(interface{ CloseWrite() error }); ok {
+			cw.CloseWrite()
+		}
+	}
 
-	copySync := func(w io.Writer, r io.Reader, donec chan<- bool) {
+	// Bytes are written straight to the connections: a buffered writer would hold back
+	// whatever arrives after data that was sent along with the CONNECT request.
+	copySync := func(w net.Conn, r io.Reader, donec chan<- bool) {
 		if _, err := io.Copy(w, r); err != nil && err != io.EOF {
 			log.Errorf("martian: failed to copy CONNECT tunnel: %v", err)
 		}
+		halfClose(w)
 
 		log.Debugf("martian: CONNECT tunnel finished copying")
 		donec <- true
 	}
 
 	donec := make(chan bool, 2)
-	go copySync(cbw, brw, donec)
-	go copySync(brw, cbr, donec)
+	go copySync(cconn, brw, donec)
+	go copySync(conn, cconn, donec)
 
 	log.Debugf("martian: established CONNECT tunnel, proxying traffic")
 	<-donec
